@@ -203,6 +203,16 @@ class Settings:
         )
 
 
+DECOY_RISCV = (
+    ".data\nd: .word 7, 8\n.text\nli t0, 3\nagain: lw t1, d\nadd t2, t1, t0\nsw t2, d[1], t3\naddi t0, t0, -1\n"
+    "bne t0, zero, again\naddi a7, zero, 1\nadd a0, t2, zero\necall\n"
+)
+DECOY_CACHES = {
+    "dc": {"enable": True, "ib": 1, "bb": 1, "ways": 2, "kind": "wb", "strat": "plru", "pen": 2},
+    "ic": {"enable": True, "ib": 0, "bb": 1, "ways": 2, "kind": "wt", "strat": "lru", "pen": 1},
+}
+
+
 class SutConstructionError(Exception):
     """The front end's factory raised for a legal configuration."""
 
@@ -227,6 +237,8 @@ class Subject:
         self.reloaded_started = False
         self.events = 0
         self.total_steps = 0
+        self.decoy = None
+        self.decoy_count = 0
         self.dead = False  # a violation was recorded: stop evaluating
         self.new_simulation()
 
@@ -243,6 +255,39 @@ class Subject:
             self.mode, bool(self.settings["hz"]), st.cache_options("dc"), st.cache_options("ic")
         )
 
+    def make_decoy(self):
+        """Another live simulation with *different* settings (other ISA store / other pipeline mode, hazard
+        setting and caches), created after the ones under observation and stepped alternately with them: the
+        web UI keeps a RISC-V store, a TOY store and not-yet-destroyed old simulations alive together."""
+        try:
+            if self.isa == "toy":
+                d = self.webgui.get_riscv_simulation("five_stage_pipeline", True, Settings(DECOY_CACHES).cache_options("dc"),
+                                                     Settings(DECOY_CACHES).cache_options("ic"))
+                d.load_program(DECOY_RISCV)
+            else:
+                st = self.settings
+                other = {"dc": dict(st["dc"], enable=not st["dc"]["enable"], kind="wt" if st["dc"]["kind"] == "wb" else "wb",
+                                    ways=2 if st["dc"]["ways"] != 2 else 4, strat="lru"),
+                         "ic": dict(st["ic"], enable=not st["ic"]["enable"], ways=2 if st["ic"]["ways"] != 2 else 4, strat="lru")}
+                mode = "five_stage_pipeline" if self.decoy_count % 2 == 0 else "single_stage_pipeline"
+                d = self.webgui.get_riscv_simulation(mode, not bool(st["hz"]), Settings(other).cache_options("dc"),
+                                                     Settings(other).cache_options("ic"))
+                d.load_program(DECOY_RISCV)
+            self.decoy_count += 1
+            return d
+        except Exception:  # noqa: BLE001
+            return None
+
+    def decoy_step(self):
+        d = self.decoy
+        if d is not None:
+            try:
+                if d.is_done():
+                    d.load_program(DECOY_RISCV)
+                d.step()
+            except Exception:  # noqa: BLE001
+                self.decoy = None
+
     def new_simulation(self):
         """F-reset: the old object is dropped; only the editor text and the settings survive."""
         try:
@@ -250,6 +295,7 @@ class Subject:
             self.s16 = self.factory()
         except Exception as e:  # noqa: BLE001
             raise SutConstructionError(f"{type(e).__name__}: {e}") from e
+        self.decoy = self.make_decoy() if self.settings.get("decoy") else None
         self.s13 = None
         self.s20 = None
         self.loaded_ok = False
@@ -392,6 +438,7 @@ class Subject:
         SUT, mirrored on S16; S13 / S20 advance only by effective whole steps."""
         sut = self.sut
         self.total_steps += 1
+        self.decoy_step()
         try:
             was_done = bool(sut.is_done())
         except Exception:  # noqa: BLE001
